@@ -432,6 +432,89 @@ def split_or_guard_arms(src, log):
     raise ExtractError("R15 did not converge")
 
 
+# ---------------------------------------------------------------- R17 inline neighbour iterators
+def name_neighbor_iterators(src, log):
+    """R17: `for P in E {` whose iterable E is a call chain ending in `.neighbors_directed(..)` (not a plain variable) becomes
+    `let verif_nbrsK = E; for P in verif_nbrsK {` - the iterable is evaluated once before the loop either way; it gives the
+    iterator a name the loop contracts can refer to (and R16 can match with the name it had when it was bound by a `let`)."""
+    count = 0
+    for _ in range(40):
+        toks = tokenize(src)
+        hit = None
+        for k, t in enumerate(toks):
+            if not (t.kind == "ident" and t.text == "for"):
+                continue
+            p = prev_sig(toks, k)
+            if p >= 0 and toks[p].text in ("impl", ">"):
+                continue
+            # find `in` at depth 0
+            j = next_sig(toks, k)
+            d = 0
+            while j < len(toks):
+                x = toks[j]
+                if x.text in ("(", "["):
+                    d += 1
+                elif x.text in (")", "]"):
+                    d -= 1
+                elif d == 0 and x.kind == "ident" and x.text == "in":
+                    break
+                elif x.text in ("{", ";"):
+                    j = len(toks)
+                    break
+                j = next_sig(toks, j)
+            if j >= len(toks):
+                continue
+            e0 = next_sig(toks, j)
+            # iterable: up to the body `{` at depth 0
+            q = e0
+            d = 0
+            while q < len(toks):
+                x = toks[q].text
+                if x in ("(", "["):
+                    d += 1
+                elif x in (")", "]"):
+                    d -= 1
+                elif x == "{" and d == 0:
+                    break
+                q = next_sig(toks, q)
+            if q >= len(toks):
+                continue
+            sigs = [toks[i] for i in range(e0, q) if toks[i].kind not in ("ws", "comment")]
+            if len(sigs) <= 1 or sigs[-1].text != ")":
+                continue
+            # last call of the chain must be neighbors_directed
+            close = max(i for i in range(e0, q) if toks[i].kind not in ("ws", "comment"))
+            dd = 0
+            o = close
+            while o >= e0:
+                if toks[o].text == ")":
+                    dd += 1
+                elif toks[o].text == "(":
+                    dd -= 1
+                    if dd == 0:
+                        break
+                o -= 1
+            nm = prev_sig(toks, o)
+            if nm < e0 or toks[nm].text != "neighbors_directed":
+                continue
+            hit = (k, e0, q)
+            break
+        if not hit:
+            return src
+        k, e0, q = hit
+        count += 1
+        name = "verif_nbrs%d" % count
+        expr = text(toks, e0, q).strip()
+        # a label (`'a: for ..`) stays with the loop: insert the let before the label if there is one
+        start = k
+        p = prev_sig(toks, k)
+        if p >= 0 and toks[p].text == ":" and prev_sig(toks, p) >= 0 and toks[prev_sig(toks, p)].kind == "lifetime":
+            start = prev_sig(toks, p)
+        src = text(toks, 0, start) + "let %s = %s; " % (name, expr) + text(toks, start, e0) + name + " " + text(toks, q, len(toks))
+        log.append({"rule": "R17", "iterator": name, "expr": re.sub(r"\s+", " ", expr)[:100]})
+    raise ExtractError("R17 did not converge")
+
+
 # ---------------------------------------------------------------- R4 format!
 def _strip_ref(a):
     a = a.strip()
